@@ -33,6 +33,8 @@ FP_EQHASH = "pytd-eq-nested-union-order"
 FP_IMPORT = "unused-typing-import-after-elided-annotation"
 FP_MUTIMPORT = "mutated-type-typing-name-not-imported"
 FP_CLASSEQ = "pytd-class-eq-lookup-cache"
+FP_CONCAT = "callable-concatenate-substring-in-argument"
+FP_TYPEDDICT = "typeddict-functional-form-renamed"
 
 
 # ---------------------------------------------------------------------------------------------------
@@ -234,6 +236,19 @@ def explain_diff(text, text2):
   cur, ch = apply_self_mutation(cur)
   if ch:
     fps.add(FP_SELF)
+  # a parameter printed `x: Any`: AnythingType is never printed on a parameter, so the type was a one-member union of
+  # Any (printed as its member); the reader sees Any and the second printing leaves the annotation out
+  cur2 = []
+  for l in cur:
+    if re.match(r"^\s*def \w+\(", l) and ": Any" in l:
+      pd = _parse_def(l)
+      if pd:
+        ps = [re.sub(r"^(\*{0,2}\w+): Any( = \.\.\.)?$", r"\1\2", x) for x in pd[1]]
+        if ps != pd[1]:
+          fps.add(FP_SINGLE)
+          l = re.match(r"^(\s*def \w+\()", l).group(1) + ", ".join(ps) + ") -> " + pd[2] + ":" + (" ..." if pd[3] else "")
+    cur2.append(l)
+  cur = cur2
   # an unused name in the `from typing import ...` line (left behind by an elided self/cls annotation)
   def imports(ls):
     for i, l in enumerate(ls):
@@ -257,12 +272,179 @@ def explain_diff(text, text2):
           cur.pop(0)
   if cur == b:
     return fps, []
+  # functional-form TypedDict (keys that are not identifiers): X = TypedDict('X', {...}) is re-read as a generated class
+  # typeddict_X_0 plus the alias X = typeddict_X_0, and every reference is renamed; each further round wraps once more
+  tds = [m.group(1) for l in cur for m in [re.match(r"^(\w+) = TypedDict\('(\w+)', \{", l)] if m and m.group(1) == m.group(2)]
+  if tds:
+    cand = list(cur)
+    for nm in tds:
+      new_nm = "typeddict_%s_0" % nm
+      cand = [re.sub(r"\b%s\b" % re.escape(nm), new_nm, l) for l in cand] + ["%s = %s" % (nm, new_nm)]
+    def norm_lines(ls):
+      out = []
+      for l in ls:
+        if not l.strip():
+          continue
+        if l.startswith("from typing import "):
+          continue                               # the unused Literal import of total=... disappears as well
+        out.append(l)
+      return sorted(out)
+    if norm_lines(cand) == norm_lines(b):
+      return (fps - {FP_IMPORT}) | {FP_TYPEDDICT}, []     # the unused Literal import belongs to the dropped total=...
   unexplained = []
   sm = difflib.SequenceMatcher(None, cur, b, autojunk=False)
   for tag, i1, i2, j1, j2 in sm.get_opcodes():
     if tag != "equal":
       unexplained.append({"old": cur[i1:i2], "new": b[j1:j2]})
   return set(), unexplained
+
+
+# ---- root-cause classification of differences that the known defects do not explain ----
+# The fingerprints below form a small closed set: they name the declaration kind, the place and the kind of change,
+# never the content, so that one root cause has one fingerprint under every seed.
+
+def line_kind(l):
+  s = l.strip()
+  if not s:
+    return "blank"
+  if s.startswith(("from ", "import ")):
+    return "import"
+  if s.startswith("@"):
+    return "decorator"
+  if s.startswith("class "):
+    return "class"
+  if s.startswith("def "):
+    return "def"
+  if re.match(r"\w+ = (\w+\.)?TypeVar\(", s):
+    return "typevar"
+  if "TypedDict(" in s:
+    return "typeddict"
+  if re.match(r"[\w.]+ = ", s):
+    return "mutation" if l.startswith("    ") and not re.match(r"\s+[A-Z]", l) else "alias"
+  if re.match(r"[\w.]+: ", s):
+    return "constant"
+  return "other"
+
+
+def type_change(a, b):
+  ta = re.findall(r"[\w.]+|'[^']*'|\"[^\"]*\"|\S", a)
+  tb = re.findall(r"[\w.]+|'[^']*'|\"[^\"]*\"|\S", b)
+  ca, cb = collections.Counter(t for t in ta if t not in "[],"), collections.Counter(t for t in tb if t not in "[],")
+  if ca == cb:
+    return "reordered"
+  if not (cb - ca):
+    return "member-dropped"
+  if not (ca - cb):
+    return "member-added"
+  return "rewritten"
+
+
+def _parse_def(l):
+  m = re.match(r"^\s*def (\w+)\((.*)\) -> (.*?):( \.\.\.)?$", l)
+  if not m:
+    return None
+  return m.group(1), _split_top(m.group(2)), m.group(3), bool(m.group(4))
+
+
+def _parse_param(p):
+  m = re.match(r"^(\*{0,2})(\w*)(?:: (.*?))?( = \.\.\.)?$", p)
+  if not m:
+    return ("?", p, None, False)
+  return (m.group(1), m.group(2), m.group(3), bool(m.group(4)))
+
+
+def pair_causes(o, n):
+  ko, kn = line_kind(o), line_kind(n)
+  if ko != kn:
+    return ["line-kind:%s->%s" % (ko, kn)]
+  if ko == "def":
+    po, pn = _parse_def(o), _parse_def(n)
+    if not po or not pn:
+      return ["def:unparsed"]
+    out = []
+    if po[0] != pn[0]:
+      out.append("def:name")
+    if len(po[1]) != len(pn[1]):
+      out.append("def:param-count")
+    else:
+      for a, b in zip(po[1], pn[1]):
+        if a == b:
+          continue
+        pa, pb = _parse_param(a), _parse_param(b)
+        if pa[0] != pb[0] or (a in ("/", "*")) != (b in ("/", "*")):
+          out.append("def:param-marker")
+        elif pa[1] != pb[1]:
+          out.append("def:param-name")
+        elif pa[2] != pb[2]:
+          if pb[2] is None:
+            out.append("def:param-annotation-elided" + (":Any" if pa[2] == "Any" else ""))
+          elif pa[2] is None:
+            out.append("def:param-annotation-added")
+          else:
+            out.append("def:param-annotation:" + type_change(pa[2], pb[2]))
+        elif pa[3] != pb[3]:
+          out.append("def:param-default")
+    if po[2] != pn[2]:
+      out.append("def:return:" + type_change(po[2], pn[2]))
+    if po[3] != pn[3]:
+      out.append("def:body")
+    return out or ["def:other"]
+  if ko in ("constant", "alias", "mutation"):
+    sep_ = ": " if ko == "constant" else " = "
+    a, b = o.strip().split(sep_, 1), n.strip().split(sep_, 1)
+    if a[0] != b[0]:
+      return [ko + ":name"]
+    return [ko + ":" + type_change(a[1], b[1])]
+  return [ko + "-line"]
+
+
+def diff_causes(unexplained):
+  causes = []
+  for h in unexplained:
+    old = [l for l in h["old"] if l.strip()]
+    new = [l for l in h["new"] if l.strip()]
+    if len(old) == len(new):
+      for o, n in zip(old, new):
+        causes += pair_causes(o, n)
+    else:
+      sm = difflib.SequenceMatcher(None, old, new, autojunk=False)
+      for tag, i1, i2, j1, j2 in sm.get_opcodes():
+        if tag == "equal":
+          continue
+        if tag == "replace" and i2 - i1 == j2 - j1:
+          for o, n in zip(old[i1:i2], new[j1:j2]):
+            causes += pair_causes(o, n)
+          continue
+        causes += ["line-removed:" + line_kind(l) for l in old[i1:i2]]
+        causes += ["line-added:" + line_kind(l) for l in new[j1:j2]]
+    if not old and not new:
+      causes.append("blank-lines")
+  return sorted(set(causes)) or ["none"]
+
+
+def err_cause(err):
+  """The template of an error message: quoted text, numbers and the position lines removed."""
+  msg = (err or "").strip().split("\n")[-1]
+  first = (err or "").split(":", 1)[0].strip().split(" ")[-1]
+  msg = re.sub(r"'[^']*'|\"[^\"]*\"|`[^`]*`", "#", msg)
+  msg = re.sub(r"\d+", "#", msg)
+  msg = re.sub(r"\{[^}]*\}", "#", msg)
+  words = re.findall(r"[A-Za-z#]+", msg)
+  return (first + ":" + "-".join(words[:7]))[:80]
+
+
+def decl_cause(path, a, b):
+  last = path[-1]
+  if isinstance(last, str):
+    kind = ("param" if re.match(r"p\d+:", last) else "shape" if last.startswith("shape") else
+            "mutation" if last.startswith("mut:") else {"*": "star", "**": "starstar"}.get(last, last))
+  else:
+    kind = str(path[-2]) if len(path) > 1 else "decl"
+  shape = "%s->%s" % (a[0], b[0])
+  if a[0] == "U" and b[0] == "U":
+    d = len(b[1]) - len(a[1])
+    shape += ":members" + ("-dropped" if d < 0 else "-added" if d > 0 else "-changed")
+  return "%s:%s" % (kind, shape)
 
 
 # ---- structural comparison of declarations (types by path) ----
@@ -621,8 +803,8 @@ def run(res):
         viol_budget[0] -= 1
 
   def unknown_violation(kind, what, replay):
-    key = common.sha(json.dumps(replay, sort_keys=True, default=str).encode())
-    report("%s:%s" % (kind, key), what, replay)
+    # `kind` is a root-cause fingerprint (declaration kind / place / kind of change), never a hash of the content
+    report(kind, what, replay)
 
   def disagree(kind, detail):
     nonlocal n_mism
@@ -636,8 +818,21 @@ def run(res):
   for f in sorted(os.listdir(cdir)) if os.path.isdir(cdir) else []:
     corpus.append((f, json.load(open(os.path.join(cdir, f)))))
   for name, c in corpus:
+    # an entry that reproduces a finding is exercised once that finding is listed (before that it would only repeat
+    # the proposal as a VIOLATION on every run)
+    if c.get("requires_known") and c["requires_known"] not in res.known:
+      hist["corpus:skipped-until-listed"] += 1
+      continue
     if c.get("kind") == "stub":
       check_stub_text(res, impl, ids, c["text"], "corpus:" + name, hist, report, unknown_violation)
+    elif c.get("kind") == "program":
+      from pytype import config as _config, io as _io
+      try:
+        _, pyi = _io.generate_pyi(c["program"], _config.Options.create(python_version=PYVER))
+      except Exception as e:  # pylint: disable=broad-except
+        hist["corpus:pytype-crash:" + type(e).__name__] += 1
+        continue
+      check_stub_text(res, impl, ids, pyi, {"program": c["program"]}, hist, report, unknown_violation)
 
   # ---------------- (1) types ----------------
   n_ty = 12000 if thorough else 1500
@@ -699,23 +894,24 @@ def run(res):
     # ---- direct oracle on the implementation ----
     if not o["parse"]:
       if wf == "1":
-        unknown_violation("type-does-not-parse", "a printed dialect type is rejected by the reader: " + str(o["err"]),
+        unknown_violation("stub-does-not-parse:" + err_cause(o["err"]), "a printed dialect type is rejected by the reader: " + str(o["err"]),
                           {"kind": "stub", "text": text})
       continue
     feats = type_features(t)
     if not o["verify"]:
-      unknown_violation("type-verify", "VerifyVisitor rejects the re-read stub: " + str(o["err"]), {"kind": "stub", "text": text})
+      unknown_violation("stub-verify:" + err_cause(o["err"]), "VerifyVisitor rejects the re-read stub: " + str(o["err"]), {"kind": "stub", "text": text})
     if not o["fix"]:
       fps, unexpl = explain_diff(text, o["text2"] or "")
       if unexpl or not fps:
-        unknown_violation("type-fixpoint", "re-printing the re-read stub changes it", {"kind": "stub", "text": text, "reprinted": o["text2"]})
+        for cause in diff_causes(unexpl)[:2]:
+          unknown_violation("stub-diff:" + cause, "re-printing the re-read stub changes it", {"kind": "stub", "text": text, "reprinted": o["text2"]})
       for fp in fps:
         report(fp, "re-printing the re-read stub changes it", {"kind": "stub", "text": text, "reprinted": o["text2"]})
     if tb not in (None, "?"):
       eq, fps, _ = compare_decl(("const", "x0"), g.unqual(t), tb)
       if not eq:
         if fps is None:
-          unknown_violation("type-structure", "re-read type differs structurally from the printed one",
+          unknown_violation("decl-diff:" + decl_cause(("const", "x0"), g.unqual(t), tb), "re-read type differs structurally from the printed one",
                             {"kind": "stub", "text": text, "printed": repr(g.unqual(t)), "reread": repr(tb)})
         else:
           for fp in fps:
@@ -846,10 +1042,10 @@ def run(res):
     # direct oracle
     if not o["parse"]:
       if wf == "1":
-        unknown_violation("sig-does-not-parse", "a printed dialect signature is rejected: " + str(o["err"]), {"kind": "stub", "text": text})
+        unknown_violation("stub-does-not-parse:" + err_cause(o["err"]), "a printed dialect signature is rejected: " + str(o["err"]), {"kind": "stub", "text": text})
       continue
     if not o["verify"]:
-      unknown_violation("sig-verify", "VerifyVisitor rejects the re-read stub", {"kind": "stub", "text": text})
+      unknown_violation("stub-verify:" + err_cause(o["err"]), "VerifyVisitor rejects the re-read stub", {"kind": "stub", "text": text})
     if not o["fix"]:
       fps, unexpl = explain_diff(text, o["text2"] or "")
       single_any = any(x == ("U", [("A",)]) for t in sig_types(s) for x in g.subterms(t))
@@ -857,7 +1053,8 @@ def run(res):
         fps = fps | {FP_SINGLE}
         unexpl = []
       if unexpl or not fps:
-        unknown_violation("sig-fixpoint", "re-printing the re-read stub changes it", {"kind": "stub", "text": text, "reprinted": o["text2"]})
+        for cause in diff_causes(unexpl)[:2]:
+          unknown_violation("stub-diff:" + cause, "re-printing the re-read stub changes it", {"kind": "stub", "text": text, "reprinted": o["text2"]})
       for fp in fps:
         report(fp, "re-printing the re-read stub changes it", {"kind": "stub", "text": text, "reprinted": o["text2"]})
   res.extra["sig_cases"] = len(scases)
@@ -980,10 +1177,16 @@ def check_stub_text(res, impl, ids, text, origin, hist, report, unknown_violatio
   if isinstance(origin, dict):
     replay.update(origin)
   if not o["parse"]:
-    unknown_violation("stub-does-not-parse", "the emitted stub is rejected by pytype's own reader: " + str(o["err"]), replay)
+    # VisitCallableType tests `"Concatenate" in node.args[0]` on the printed string: a first argument whose NAME contains
+    # Concatenate is printed without the argument brackets, Callable[ConcatenateJob, int, str], which the reader rejects
+    if "parameters to Callable" in str(o["err"]) and re.search(r"Callable\[[\w.]*Concatenate[\w.]*(\[[^\]]*\])?, ", text):
+      report(FP_CONCAT, "the emitted stub is rejected by pytype's own reader: " + str(o["err"]).strip().split("\n")[-1], replay)
+    else:
+      unknown_violation("stub-does-not-parse:" + err_cause(o["err"]),
+                        "the emitted stub is rejected by pytype's own reader: " + str(o["err"]), replay)
     return
   if not o["verify"]:
-    unknown_violation("stub-verify", "VerifyVisitor rejects the re-read stub: " + str(o["err"]), replay)
+    unknown_violation("stub-verify:" + err_cause(o["err"]), "VerifyVisitor rejects the re-read stub: " + str(o["err"]), replay)
   if not o["fix"]:
     hist["stub:not-fixpoint"] += 1
     fps, unexpl = explain_diff(text, o["text2"] or "")
@@ -998,9 +1201,12 @@ def check_stub_text(res, impl, ids, text, origin, hist, report, unknown_violatio
             replay2["shrunk_from"] = replay2.pop("text")
             replay2["text"] = small
             replay2.pop("program", None)
+            if unexpl_s:
+              replay2["unexplained"] = unexpl_s[:3]
         except Exception:  # pylint: disable=broad-except
           pass
-      unknown_violation("stub-fixpoint", "re-printing the re-read stub changes it: %r" % (unexpl[:1],), replay2)
+      for cause in diff_causes(replay2.get("unexplained") or unexpl)[:2]:
+        unknown_violation("stub-diff:" + cause, "re-printing the re-read stub changes it: %r" % (unexpl[:1],), replay2)
     for fp in fps:
       report(fp, "re-printing the re-read stub changes it", replay2)
   else:
@@ -1018,7 +1224,7 @@ def check_stub_text(res, impl, ids, text, origin, hist, report, unknown_violatio
         else:
           unknown_violation("stub-asteq", "ASTeq(parse(text), parse(print(parse(text)))) is false", replay)
     except Exception as e:  # pylint: disable=broad-except
-      unknown_violation("stub-reparse", "re-printed stub does not parse: %r" % (e,), replay)
+      unknown_violation("stub-reparse:" + err_cause("%s: %s" % (type(e).__name__, e)), "re-printed stub does not parse: %r" % (e,), replay)
   if printed_ast is not None:
     try:
       a0 = printed_ast.Visit(impl.visitors.ClassTypeToNamedType())
@@ -1036,7 +1242,7 @@ def check_stub_text(res, impl, ids, text, origin, hist, report, unknown_violatio
         continue
       hist["decl:different"] += 1
       if fps is None:
-        unknown_violation("decl-structure", "declaration %r re-read with a different type" % (path,),
+        unknown_violation("decl-diff:" + decl_cause(path, ma[path], mb[path]), "declaration %r re-read with a different type" % (path,),
                           dict(replay, path=repr(path), printed=repr(ma[path]), reread=repr(mb[path])))
       else:
         for fp in fps:
@@ -1047,8 +1253,17 @@ def build_stub(r, gen, impl, ids, tvars, env):
   """A TypeDeclUnit in the reader's conventions: constants, functions (1-2 signatures), classes (bases, methods of
   every kind, Annotated property constants, nested class), aliases, TypeVars."""
   pytd = impl.pytd
+  def clean(t):
+    # stay inside the emitted dialect: what a union of duplicates collapses to at construction (through pytd and
+    # back), and no one-member unions (JoinTypes never builds one; they are the C11-rooted finding of streams 1 and 3)
+    t = conv_p(t)
+    try:
+      t = g.from_pytd(ids, g.to_pytd(ids, t))
+    except AssertionError:
+      pass
+    return collapse_single(t)
   def ty(d=2):
-    return conv_p(gen.ty(d, env))
+    return clean(gen.ty(d, env))
   def conv_p(t):
     # reader convention
     k = t[0]
@@ -1066,13 +1281,13 @@ def build_stub(r, gen, impl, ids, tvars, env):
   def sig(cls=None, first=None):
     s = gen.sig(env, cls)
     ps, star, sstar, ret = s
-    ps = [(nm, kind, opt, conv_p(t), None) for (nm, kind, opt, t, mut) in ps if ids.s(nm) not in ("self", "cls")]
+    ps = [(nm, kind, opt, clean(t), None) for (nm, kind, opt, t, mut) in ps if ids.s(nm) not in ("self", "cls")]
     if first:
       kind0 = 0 if ps and ps[0][1] == 0 else 1
       ps = [(ids.id(first), kind0, 0, ("A",), None)] + ps
-    star = None if star is None else (star[0], conv_p(star[1]))
-    sstar = None if sstar is None else (sstar[0], conv_p(sstar[1]))
-    return g.sig_to_pytd(ids, (ps, star, sstar, conv_p(ret)))
+    star = None if star is None else (star[0], clean(star[1]))
+    sstar = None if sstar is None else (sstar[0], clean(sstar[1]))
+    return g.sig_to_pytd(ids, (ps, star, sstar, clean(ret)))
   n = [0]
   def fresh(p):
     n[0] += 1
